@@ -39,6 +39,7 @@ def phase4Model (cfg : Cfg) (g : G) : M G := do
     | 2 => phase4Simple 2 cfg.ns cfg.ls g
     | 3 => (execNsPositioner (thorOf cfg) 4 cfg.ns g).map (assignYCoords cfg.ls)
     | 4 => (BK.execBrandesKoepf cfg.bk cfg.ns g).map (assignYCoords cfg.ls)
+    | 5 => pure g      -- `NoPositioning`: returns before `assignYCoords`
     | _ => throw "unknown positioner"
 
 /-- one component through the whole pipeline -/
